@@ -2,6 +2,8 @@
 //   BH <configured bits> <v0> <v1> ...   -> "<inline bits> <array count> b0:e0 b1:e1 ..."   (hex)
 #include "lm/bhiksha.hh"
 #include "lm/config.hh"
+#include "lm/quantize.hh"
+#include "util/bit_packing.hh"
 #include <cstdlib>
 #include <cstring>
 #include <iostream>
@@ -34,6 +36,38 @@ int main() {
         }
         for (size_t i = 0; i < guard; ++i) if (mem[size + i] != 0x5a) { o << " GUARD-OVERWRITTEN"; break; }
       } catch (const std::exception &e) { o << "exception"; }
+    } else if (cmd == "QZ") {
+      // lm/quantize.cc: QZ <prob bits> <backoff bits> ; <probs...> ; <non-zero backoffs...> ; <p:b test pairs...>   (values in units of 1/64, signed decimal)
+      // -> the two tables after Train(2, ...) and, for each pair written through MiddlePointer, what reads back (float bit patterns)
+      std::string pb, bb; in >> pb >> bb;
+      lm::ngram::Config config; config.prob_bits = atoi(pb.c_str()); config.backoff_bits = atoi(bb.c_str());
+      std::vector<float> probs, backoffs; std::vector<std::pair<float, float> > tests;
+      int part = -1;
+      while (in >> x) {
+        if (x == ";") { ++part; continue; }
+        if (part == 0) probs.push_back(atof(x.c_str()) / 64.0f);
+        else if (part == 1) backoffs.push_back(atof(x.c_str()) / 64.0f);
+        else { size_t c = x.find(':'); tests.push_back(std::make_pair((float)(atof(x.substr(0, c).c_str()) / 64.0), (float)(atof(x.substr(c + 1).c_str()) / 64.0))); }
+      }
+      std::vector<unsigned char> mem(lm::ngram::SeparatelyQuantize::Size(3, config) + 64, 0);
+      lm::ngram::SeparatelyQuantize q; q.SetupMemory(&mem[0], 3, config);
+      q.Train(2, probs, backoffs);
+      union { float f; uint32_t i; } u;
+      auto tabs = q.GetTables(0);
+      o << "P";
+      for (size_t i = 0; i < (1ULL << config.prob_bits); ++i) { u.f = tabs[0].Decode(i); o << ' ' << std::hex << u.i; }
+      o << " B";
+      for (size_t i = 0; i < (1ULL << config.backoff_bits); ++i) { u.f = tabs[1].Decode(i); o << ' ' << std::hex << u.i; }
+      o << " R";
+      for (size_t t = 0; t < tests.size(); ++t) {
+        unsigned char rec[16]; memset(rec, 0, sizeof rec);
+        lm::ngram::SeparatelyQuantize::MiddlePointer mp(q, 0, util::BitAddress(rec, 0));
+        mp.Write(tests[t].first, tests[t].second);
+        // the record is written through uint64_t* and read through uint32_t* (as over kenlm's mmap'd memory, in different phases);
+        // inlined into one function that is a strict-aliasing hazard, so make the compiler forget what it knows about rec
+        asm volatile("" : : "r"(rec) : "memory");
+        u.f = mp.Prob(); o << ' ' << std::hex << u.i; u.f = mp.Backoff(); o << ':' << std::hex << u.i;
+      }
     } else o << "?";
     std::cout << o.str() << '\n';
   }
